@@ -712,3 +712,56 @@ Proof.
 Qed.
 
 End FileLevel.
+
+(* ------------------------------------------------------------------ HOSTALIASES *)
+Lemma hostnamech_printable c : is_hostnamech c = true -> isprint c = true.
+Proof.
+  unfold is_hostnamech, isalpha, islower, isupper, isdigit, isprint. intros H.
+  repeat (apply orb_true_iff in H as [H|H]);
+    try (apply N.eqb_eq in H; subst c; reflexivity);
+    apply andb_true_iff in H as [H1 H2]; apply N.leb_le in H1, H2; apply andb_true_iff; split; apply N.leb_le; lia.
+Qed.
+
+Lemma hostalias_step_junk name j r : alias_line_usable name j = false ->
+  hostalias_lines name (j :: r) = hostalias_lines name r.
+Proof.
+  unfold alias_line_usable, alias_word1, alias_word2. intros H. cbn [hostalias_lines].
+  destruct (span (fun c => negb (isspace c)) j) as [hn rest]. cbn [fst snd] in H.
+  unfold fetch_string at 1. change (64 - 1)%nat with 63%nat.
+  destruct (Nat.ltb_spec 63 (length hn)) as [|L1]; [reflexivity|].
+  destruct (forallb isprint hn) eqn:P1; [|reflexivity].
+  destruct (bytes_caseeq hn name) eqn:C1; [|reflexivity]. cbn [negb].
+  destruct (span (fun c => negb (isspace c)) (dropwhile isspace rest)) as [fq rest2]. cbn [fst] in H.
+  unfold fetch_string. change (256 - 1)%nat with 255%nat.
+  destruct (Nat.ltb_spec 255 (length fq)) as [|L2]; [reflexivity|].
+  destruct (forallb isprint fq) eqn:P2; [|reflexivity].
+  destruct fq as [|f0 fr]; [reflexivity|].
+  destruct (forallb is_hostnamech (f0 :: fr)) eqn:Hh; [|reflexivity].
+  exfalso. destruct (Nat.leb_spec (length hn) 63); [|lia]. destruct (Nat.leb_spec (length (f0 :: fr)) 255); [|lia].
+  cbn in H. discriminate.
+Qed.
+
+Lemma hostalias_lines_skip name j l2 : alias_line_usable name j = false ->
+  forall l1, hostalias_lines name (l1 ++ j :: l2) = hostalias_lines name (l1 ++ l2).
+Proof.
+  intros H. induction l1 as [|x l1 IH]; [apply hostalias_step_junk; exact H|].
+  cbn [app hostalias_lines]. rewrite IH.
+  destruct (span (fun c => negb (isspace c)) x) as [hn rest]. reflexivity.
+Qed.
+
+(* C15_junk_independent for the HOSTALIASES file, on the file text *)
+Theorem junk_alias_file_independent name rs1 j rs2 :
+  Forall no_nl rs1 -> no_nl j -> Forall no_nl rs2 -> junk_alias_line name j = true ->
+  lookup_hostaliases name (unlines (rs1 ++ j :: rs2)) = lookup_hostaliases name (unlines (rs1 ++ rs2)).
+Proof.
+  intros F1 Fj F2 Hj. unfold lookup_hostaliases.
+  rewrite !file_lines_unlines.
+  2:{ apply Forall_app. split; assumption. }
+  2:{ apply Forall_app. split; [assumption|constructor; assumption]. }
+  rewrite !trimmed_lines_app. change (j :: rs2) with ([j] ++ rs2). rewrite trimmed_lines_app.
+  cbn [trimmed_lines flat_map]. rewrite app_nil_r.
+  unfold junk_alias_line in Hj. destruct (mem ch_nl j); [discriminate|]. apply negb_true_iff in Hj.
+  destruct (rtrim (ltrim j)) as [|t0 tr] eqn:Et; [reflexivity|].
+  cbn [app]. apply hostalias_lines_skip. exact Hj.
+Qed.
+
